@@ -46,16 +46,75 @@ def cases(draw, stratum):
         h = draw(H.histories(feats, max_steps=2, min_steps=0))
         return {'history': h, 'rows': {}, 'links': {}, 'entry': draw(st.sampled_from(
             ['api', 'evolve_cmd'])), 'stratum': 'fresh', 'fresh': True}
+    if stratum in ('handover', 'deps', 'soft_initial'):
+        # projects with Django migrations next to evolutions (the C10 / C09 generators);
+        # every evolution adds the column c_<label>, so what a pair executed is attributable
+        from . import c09, c10
+        if stratum == 'deps':
+            src = draw(c09.cases('main'))
+        else:
+            src = draw(c10.cases(draw(st.sampled_from(['evolving', 'evolving', 'fresh',
+                                                       'migrated']))))
+        return {'from': 'c09' if stratum == 'deps' else 'c10', 'src': src,
+                'soft_initial': stratum == 'soft_initial',
+                'entry': draw(st.sampled_from(['api', 'evolve_cmd'])), 'stratum': stratum,
+                'history': {'steps': []}, 'rows': {}, 'links': {}, 'max_faults': 6}
     c = draw(c07.cases('purge' if stratum == 'purge' else
                        ('single' if stratum == 'single' else 'multi')))
     c['stratum'] = stratum
     return c
 
 
+def versions_from(case):
+    """(v0 or None, v1, statements to run after installing v0) for the cases
+    built by the C09 / C10 generators."""
+    from . import c09, c10
+    src = case['src']
+    pre = []
+    if case['from'] == 'c09':
+        v0, v1 = c09.build_versions(src)
+        return v0, v1, pre
+    k, m, p = src['k'], src['m'], src['p']
+    st_ = src['start']
+    v1 = c10.build(src, k, True, m)
+    if st_[0] == 'fresh':
+        v0 = None
+    elif st_[0] == 'evo':
+        v0 = c10.build(src, st_[1], False, 0, neighbours_new=False)
+    else:
+        v0 = c10.build(src, k, True, st_[1], neighbours_new=False)
+    if case.get('soft_initial'):
+        # a migrations-only app whose table already exists although its initial
+        # migration was never recorded (created by hand / an older tool)
+        import copy as _c
+        from .. import specs as S_
+        v1 = _c.deepcopy(v1)
+        if 'pm' not in v1['apps']:
+            v1['apps'].append('pm')
+            S_.add_model(v1['spec'], 'pm', S_.new_model('Book', [c10.fld('a')]))
+            v1['migrations']['pm'] = [{'name': '0001_initial', 'initial': True, 'dependencies': [],
+                                       'operations': [{'op': 'CreateModel', 'app': 'pm',
+                                                       'spec': S_.new_model('Book',
+                                                                            [c10.fld('a')])}]}]
+            from .. import mutgen as MG
+            v1['spec'] = MG.ensure_uids(v1['spec'])
+        if v0 is not None:
+            v0 = _c.deepcopy(v0)
+            if 'pm' in v0['apps']:
+                v0['apps'].remove('pm')
+                v0['spec']['apps'].pop('pm', None)
+                v0['migrations'].pop('pm', None)
+            cols = ', '.join('"%s" integer NULL' % f['name']
+                             for f in v1['spec']['apps']['pm']['models']['Book']['fields'])
+            pre = ['CREATE TABLE "pm_book" ("id" integer NOT NULL PRIMARY KEY AUTOINCREMENT, %s)'
+                   % cols]
+    return v0, v1, pre
+
+
 def jobs(tier, scale=1.0):
     per = max(1, int((4 if tier == 'quick' else 60) * scale))
-    strata = ['single', 'multi', 'fresh', 'purge']
-    return [{'kind': 'hyp', 'stratum': strata[i % 4], 'shard': i, 'examples': per}
+    strata = ['single', 'multi', 'fresh', 'purge', 'single', 'handover', 'deps', 'soft_initial']
+    return [{'kind': 'hyp', 'stratum': strata[i % 8], 'shard': i, 'examples': per}
             for i in range(16)]
 
 
@@ -85,7 +144,7 @@ def table_of_statement(sql):
     return m.group(1) if m else None
 
 
-def judge_trace(name, run, app_tables, atoms, labels):
+def judge_trace(name, run, app_tables, atoms, labels, attributable=False):
     """The trace automaton.  Returns (n_pairs, fault_inside_pair)."""
     trace = run['trace']
     failed = not run['ok']
@@ -134,6 +193,7 @@ def judge_trace(name, run, app_tables, atoms, labels):
     open_pairs = []
     n_pairs = 0
     fault_inside = False
+    seen_cols = dict(run.get('known_cols') or {})
     for i, t in enumerate(trace):
         if t[0] == 'signal' and t[1] in PAIRS:
             open_pairs.append([t[1], t[2], 0, []])
@@ -152,6 +212,24 @@ def judge_trace(name, run, app_tables, atoms, labels):
             n_pairs += 1
             if p[0] == 'applying_evolution' and p[2] == 0:
                 atoms.append(['pair_executed_nothing', name, p[0], _payload(p[1])])
+            if p[0] == 'applying_evolution' and attributable:
+                # every generated evolution <label> adds the column c_<label>
+                app = p[1].get('app')
+                done = set()
+                for s_ in p[3]:
+                    m_ = re.match(r'ALTER TABLE "%s_book" ADD COLUMN "c_(e\d+)"' % app, s_.strip())
+                    if m_:
+                        done.add(m_.group(1))
+                    if s_.strip().startswith('CREATE TABLE "TEMP_TABLE"'):
+                        done |= {l for l in re.findall(r'"c_(e\d+)"', s_)
+                                 if l not in seen_cols.setdefault(app, set())}
+                seen_cols.setdefault(app, set()).update(done)
+                named = {l for l in (p[1].get('evolutions') or []) if re.match(r'e\d+$', l)}
+                if done - named:
+                    atoms.append(['pair_executed_unnamed_evolution', name, sorted(done - named)])
+                if named - done:
+                    atoms.append(['pair_names_evolution_not_executed', name,
+                                  sorted(named - done)])
             if p[0] == 'creating_models':
                 created = {table_of_statement(s) for s in p[3]
                            if s.lstrip().upper().startswith('CREATE TABLE')}
@@ -190,12 +268,19 @@ def check(case):
            'atoms': [], 'nontrivial': False, 'evaluations': 0}
     atoms = out['atoms']
     h = case['history']
-    try:
-        vers = H.versions(h)
-    except (R.RefInvalid, KeyError, TypeError, AttributeError):
-        out['rejected'] = 'ref_invalid'
-        out['evaluations'] = 1
-        return out
+    pre_sql = []
+    if case.get('from'):
+        v0_, v1_, pre_sql = versions_from(case)
+        vers = [v0_ or v1_, v1_]
+        h = [case['from'], case['src'], case.get('soft_initial')]
+        case = dict(case, fresh=v0_ is None)
+    else:
+        try:
+            vers = H.versions(h)
+        except (R.RefInvalid, KeyError, TypeError, AttributeError):
+            out['rejected'] = 'ref_invalid'
+            out['evaluations'] = 1
+            return out
     n = len(vers) - 1
     purge_app = case.get('purge_app')
     if purge_app:
@@ -217,7 +302,7 @@ def check(case):
         out['rejected'] = 'empty_history'
         out['evaluations'] = 1
         return out
-    seq = H.pending_sequence(h, 0)
+    seq = [] if case.get('from') else H.pending_sequence(h, 0)
     if seq and not fresh:
         fl, _t = F.c03_flags({'mode': 'walk', 'spec': H.reference_start(h, vers, 0),
                               'seq': copy.deepcopy(seq), 'cuts': []}, {})
@@ -242,6 +327,13 @@ def check(case):
                 out['rejected'] = 'install_failed'
                 out['evaluations'] = 1
                 return out
+            if pre_sql:
+                res = P.run_driver(dirs[0], db, {'steps': [{'op': 'sql', 'statements': pre_sql}],
+                                                 'dump': []})
+                if c04.run_failed('pre', res, []):
+                    out['rejected'] = 'pre_sql_failed'
+                    out['evaluations'] = 1
+                    return out
         up = c04.upgrade_step(case['entry'])
         if purge_app:
             up = {'op': 'evolve_api', 'purge': True, 'force': True}
@@ -263,9 +355,24 @@ def check(case):
             runs.append(('fault', f['failed']['run'], f['k']))
         if not f['retry'].get('child_error'):
             runs.append(('retry', f['retry']['run'], f['k']))
+    known_cols = {}
+    if case.get('from') == 'c10':
+        src = case['src']
+        if src['start'][0] == 'evo':
+            known_cols['pa'] = {'e%d' % (i + 1) for i in range(src['start'][1])}
+        elif src['start'][0] == 'mig':
+            known_cols['pa'] = {'e%d' % (i + 1) for i in range(src['k'])}
+        if src['start'][0] != 'fresh':
+            known_cols['pb'] = {'e1'}
+    elif case.get('from') == 'c09':
+        for a, info in case['src']['apps'].items():
+            if info['state'] == 'installed':
+                known_cols[a] = {'e%d' % (i + 1) for i in range(info['applied'])}
     for name, run, k in runs:
         out['evaluations'] += 1
-        np_, inside = judge_trace(name, run, app_tables, atoms, out['labels'])
+        run['known_cols'] = {a: set(v) for a, v in known_cols.items()}
+        np_, inside = judge_trace(name, run, app_tables, atoms, out['labels'],
+                                  attributable=bool(case.get('from')))
         if np_ >= 2 or inside:
             keys.append(sha([h, name, k]))
         out['labels'].append('run:' + name)
